@@ -50,6 +50,10 @@ def plan(tier, seed):
     for b in list(MIXED_BASES) + ["user-nonconservative"]:
         for w in ("ThreeFieldVariation", "NearlyIncompressible"):
             cases.append(dict(key=f"mixed/{w}/{b}", kind="mixed", wrapper=w, base=b, seed=seed, tier=tier, cost=6))
+    # user-supplied volumetric energies with a non-constant second derivative (documented dUdJ= / d2UdJdJ= arguments)
+    for b in list(MIXED_BASES)[:2]:
+        for w in ("NearlyIncompressible/U=log2", "NearlyIncompressible/U=poly-log"):
+            cases.append(dict(key=f"mixed/{w}/{b}", kind="mixed", wrapper=w, base=b, seed=seed, tier=tier, cost=6))
     for k in ("VolumeChange", "AreaChange", "LineChange"):
         cases.append(dict(key="kinematics/" + k, kind="kin", name=k, seed=seed, tier=tier))
     for k in ("LinearElasticPlaneStress", "LinearElasticPlaneStrain"):
@@ -162,6 +166,14 @@ def state_for(e, um, lab, maker, n, seed):
     Fprev = np.eye(3) + 0.35 * zoo.offarr(seed, 950, (3, 3)) + np.diag([0.25, -0.1, 0.05])
     Fp = np.ascontiguousarray(np.broadcast_to(Fprev[:, :, None, None], (3, 3, n, 1)))
     virgin = e["states"][0][1](n)
+    if lab == "after-call-het":
+        # a state that differs from point to point: every second point keeps its virgin state, the others carry the state
+        # after a call at a deformation that varies along the batch
+        w = 0.5 + zoo.offarr(seed, 951, (n,))
+        Fp = np.eye(3)[:, :, None, None] + (Fp - np.eye(3)[:, :, None, None]) * w[None, None, :, None]
+        sv = np.array(um.gradient([np.ascontiguousarray(Fp), virgin])[-1], dtype=float)
+        sv[:, ::2] = virgin[:, ::2]
+        return sv
     return np.array(um.gradient([Fp, virgin])[-1], dtype=float)
 
 
@@ -280,7 +292,14 @@ def run_mixed(case):
         e = find(case["base"], case["tier"])
     base = e["make"]()
     c.floor = 1e-4 * max(7.0, e["scale"])
-    um = fem.ThreeFieldVariation(base) if case["wrapper"] == "ThreeFieldVariation" else fem.NearlyIncompressible(base, bulk=7.0)
+    if case["wrapper"] == "ThreeFieldVariation":
+        um = fem.ThreeFieldVariation(base)
+    elif case["wrapper"].endswith("U=log2"):  # U = K/2 ln(J)^2
+        um = fem.NearlyIncompressible(base, bulk=7.0, dUdJ=lambda J, K: K * np.log(J) / J, d2UdJdJ=lambda J, K: K * (1 - np.log(J)) / J**2)
+    elif case["wrapper"].endswith("U=poly-log"):  # U = K/4 (J^2 - 1 - 2 ln J)
+        um = fem.NearlyIncompressible(base, bulk=7.0, dUdJ=lambda J, K: K / 2 * (J - 1 / J), d2UdJdJ=lambda J, K: K / 2 * (1 + 1 / J**2))
+    else:
+        um = fem.NearlyIncompressible(base, bulk=7.0)
     lat = lattice(e["lattice"], case["seed"], "quick", e["name"])
     labels = [l for l, _ in lat]
     F = stack(lat)
